@@ -170,6 +170,28 @@ func (f *frame) applyContract(ct *Contract, callee *ssa.Function, args []Val, st
 		}
 	}
 	nh := c.heapHavoc(st.heap, "ct_"+sanitize(ct.FuncName), keep)
+	{
+		// package-level variables: immutable ones always survive; others only if the frame excludes them
+		fm := newModSet()
+		if keep == nil {
+			fm.top = true
+		} else {
+			for _, name := range c.knownArrays() {
+				if !keep(name) {
+					fm.add(name)
+				}
+			}
+			if ct.HasMod {
+				for _, m := range ct.Modifies {
+					if m == "*" {
+						fm.top = true
+					}
+				}
+			}
+		}
+		nh = c.restoreGlobals(st.heap, nh, fm)
+	}
+	nh = f.restoreLocals(st.heap, nh)
 	na := c.fresh("alloc", "Int")
 	c.assume(reach, ge(na, st.alloc.term()))
 	nst := State{heap: nh, alloc: allocPtr{base: na}}
